@@ -36,10 +36,13 @@ bool varintRLEAnalyze(const uint64_t *values, size_t count,
 /* Calculate size needed for RLE encoding */
 size_t varintRLESize(const uint64_t *values, size_t count);
 
-/* Maximum possible encoded size (worst case: all unique values) */
+/* Maximum possible encoded size (worst case: all unique values).
+ * Covers both formats: varintRLEEncode() and varintRLEEncodeWithHeader(). */
 static inline size_t varintRLEMaxSize(size_t count) {
-    /* Worst case: every value unique = count * (1 byte run + 9 bytes value) */
-    return count * 10;
+    /* Worst case: every value unique = count * (1 byte run + 9 bytes value),
+     * plus up to 9 bytes for the tagged total-count header written by
+     * varintRLEEncodeWithHeader() (written even when count is 0). */
+    return count * 10 + 9;
 }
 
 /* Encode array using Run-Length Encoding
